@@ -44,6 +44,24 @@ Theorem C20_mutate_original : forall D K n (h : heap D K) a h' a',
 Proof. exact clone_mutate_original. Qed.
 Print Assumptions C20_mutate_original.
 
+(** checkStructure (model [check]: a walk with the set of objects seen so far, failing on an
+    object met twice or a dangling child): after walking the original from any set of
+    pre-existing objects, the same walk continues through the clone without error - so the
+    original and the clone can both be placed under one parent that still resolves -
+    whereas meeting the original a second time is rejected *)
+Theorem C20_parent : forall D K n (h : heap D K) a h' a' m t seen s1,
+  clone D K n h a = Some (h', a') -> abs D K m h a = Some t ->
+  (forall x, In x seen -> x < length h) -> NoDup seen ->
+  check D K m h seen a = Some s1 ->
+  exists s2, check D K m h' s1 a' = Some s2 /\ NoDup s2 /\ In a s2 /\ In a' s2.
+Proof. exact clone_parent. Qed.
+Print Assumptions C20_parent.
+
+Theorem C20_sharing_rejected : forall D K n (h : heap D K) seen a,
+  In a seen -> check D K n h seen a = None.
+Proof. exact check_rejects_seen. Qed.
+Print Assumptions C20_sharing_rejected.
+
 Example C20_example :
   (* a three-node tree: root -> [x -> leaf; y -> leaf'] ; the clone lives at fresh addresses 3..5 *)
   let h := [mkNode nat nat 10 [(0, 1); (1, 2)]; mkNode nat nat 11 []; mkNode nat nat 12 []] in
@@ -64,3 +82,14 @@ Example C20_mutate_example :
   | None => False
   end.
 Proof. vm_compute. repeat split. discriminate. Qed.
+
+Example C20_parent_example :
+  (* a parent holding the original and its clone passes the structure check; one holding the original twice does not *)
+  let h := [mkNode nat nat 10 [(0, 1); (1, 2)]; mkNode nat nat 11 []; mkNode nat nat 12 []] in
+  match clone nat nat 5 h 0 with
+  | Some (h', a') =>
+      check nat nat 6 (h' ++ [mkNode nat nat 0 [(0, 0); (1, a')]]) [] (length h') <> None /\
+      check nat nat 6 (h' ++ [mkNode nat nat 0 [(0, 0); (1, 0)]]) [] (length h') = None
+  | None => False
+  end.
+Proof. vm_compute. split; [discriminate|reflexivity]. Qed.
